@@ -194,7 +194,8 @@ ADDENDA = {
     "C08": "some Requests are re-sent through a second client with another compression set and possibly another protocol; some compression "
            "constructors are nil; instrumented (de)compressors report any use between Put and the next Get",
     "C11": "metadata under well-known HTTP field names the protocols do not use (Content-Language, Content-Location, Allow, Link, Etag, "
-           "Server-Timing); unary Connect error bodies over the client's read limit or undecodable (the metadata must survive)",
+           "Server-Timing); unary Connect error bodies over the client's read limit or undecodable (the metadata must survive); "
+           "stream handlers whose first response the codec refuses and that end with their error (nothing sent: the metadata must still arrive)",
     "C13": "a quarter of the unary HTTP/2 calls are retries of the very same Request after a first attempt that its deadline cut short, or "
            "that the HTTPClient itself gave up on under a context that never ends - while the stub's HTTP/2 transport reads the request's "
            "header map once more at a later step, as net/http's header-encoding goroutine may (race build); one client may be misconfigured so that every call fails locally (each call must get its own error value); clients may annotate the errors "
